@@ -13,6 +13,10 @@ Oracle (spec):  computed here, from the LATT/SYMM lines of the generated file, i
    complete   every fragment image g(F) (g over operators x all translations that can reach) that is
               directly bonded to the asymmetric unit is present (an image atom that falls within 0.2 A of a
               present atom of the same PART >= 0 counts as present: duplicate suppression)
+History:        1-3 calls of grow() / grow(with_qpeaks=True) in any order on ONE Shelxfile object: every call must satisfy the
+                four clauses for the ORIGINAL asymmetric unit, return the same atoms as the first call, and leave
+                shx.atoms as read (also after the caller has changed the returned list).  The Lean model is a pure
+                function of its inputs; that the implementation is one too is checked here, not proved.
 Model (Lean):   `collectNeeded` on the implementation's own SDM items, `packer` on the implementation's own list
                 of needed operations, both in doubles; compared on need list (as a set) and grown atom list.
 
@@ -27,9 +31,9 @@ from fractions import Fraction as Fr
 from .. import core, gen
 
 # ---------------------------------------------------------------------------------------------------------
-# |LATT| values the generator draws settings from.  The library's operator list is incomplete for centred
-# lattices (property C11, repaired separately); add 2..7 here to switch the centred settings below on.
-LATTICE_TYPES = (1,)
+# |LATT| values the generator draws settings from (P, I, R, F, A, B, C).  Centred lattices are on since the C11
+# repair (complete operator list); restrict this tuple to (1,) to go back to primitive settings only.
+LATTICE_TYPES = (1, 2, 3, 4, 5, 6, 7)
 # ---------------------------------------------------------------------------------------------------------
 
 SETTINGS = [
@@ -194,6 +198,11 @@ def atoms_of(case):
     return out
 
 
+def calls_of(case):
+    """the history of grow() calls on one object: list of with_qpeaks flags (older replay files have one call)"""
+    return list(case.get('calls') or [case['with_q']])
+
+
 def render(case):
     fs = gen.FileSpec(titl='c14 ' + case['sg'], cell=tuple([0.71073] + list(case['cell'])), latt=case['latt'], symm=list(case['symm']),
                       sfac=list(case['sfac']), unit=[4] * len(case['sfac']), fvars=[0.5, 0.6])
@@ -260,6 +269,10 @@ def analyse(case):
             borderline.append('bond-limit')
         if (compatible(asu[i], asu[j]) or asu[i]['part'] == asu[j]['part']) and d < 0.6 and (i != j or d > 1e-4):
             borderline.append('too-close')
+        if asu[i]['el'] == 'H' and asu[j]['el'] == 'H' and 1e-4 < d < 1.2:
+            # the library calls H...H below 1.08 A covalent (one molecule number) although it never grows through it;
+            # such a clash is unphysical, keep generated structures away from it
+            borderline.append('hh-clash')
     # fragments = connected components of the bond graph of the asymmetric unit (identity, no translation)
     comp = {i: i for i in real}
 
@@ -399,11 +412,16 @@ def build_fragment(rng, nheavy, with_h):
 
 def make_case(rng, profile=None):
     settings = [s for s in SETTINGS if abs(s[1]) in LATTICE_TYPES]
+    profile = profile or rng.choices(['normal', 'many', 'negpart', 'onsite'], [10, 2, 2, 3])[0]
+    if profile == 'many':
+        # 7-9 fragments need room: few operators, a cell 1.8 times as long (otherwise nearly every draw clashes)
+        settings = [s for s in settings if len(full_group(s[1], s[2])) <= 8]
     sg, latt, symm, kind = rng.choice(settings)
     cell = rand_cell(rng, kind)
+    if profile == 'many':
+        cell = [round(1.8 * v, 3) for v in cell[:3]] + cell[3:]
     ops = full_group(latt, symm)
     Oinv = inv3(ortho(cell))
-    profile = profile or rng.choices(['normal', 'many', 'negpart', 'onsite'], [10, 2, 2, 3])[0]
     nfrag = rng.choice([1, 1, 2, 2, 3]) if profile != 'many' else rng.randint(7, 9)
     atoms = []
     used = set()
@@ -480,13 +498,16 @@ def make_case(rng, profile=None):
             else:
                 xyz = [round(rng.uniform(0, 1), 4) for _ in range(3)]
             qpeaks.append(dict(xyz=xyz, height=round(rng.uniform(0.3, 2.5), 2)))
+    # history of calls on one object: one call, or 2-3 calls with every order of the flag
+    ncalls = rng.choice([1, 1, 2, 2, 3])
+    calls = [rng.random() < (0.3 if ncalls == 1 else 0.5) for _ in range(ncalls)]
     return dict(sg=sg, latt=latt, symm=symm, cell=cell, sfac=SFAC, atoms=atoms, qpeaks=qpeaks,
-                with_q=rng.random() < 0.3, profile=profile)
+                with_q=calls[0], calls=calls, profile=profile)
 
 
 def good_case(rng, profile=None):
     """generated case whose decisive distances stay clear of every threshold"""
-    for _ in range(60):
+    for _ in range(60 if profile != 'many' else 12):
         case = make_case(rng, profile)
         if any(abs(v) > 3.5 for a in case['atoms'] for v in a['xyz']):
             continue
@@ -518,18 +539,34 @@ def observe_impl(case):
     def obs(a):
         return dict(name=a.name, sfac=a.sfac_num, xyz=[float(a.x), float(a.y), float(a.z)], part=a.part.n, sof=float(a.sof),
                     u=[float(v) for v in a.uvals], symmgen=bool(a.symmgen), q=bool(a.qpeak))
-    try:
-        with contextlib.redirect_stdout(sink):
-            grown = shx.grow(with_qpeaks=True) if case['with_q'] else shx.grow()
-        res = dict(grown=[obs(a) for a in grown])
-    except Exception as e:
-        return dict(raised=type(e).__name__)
+    # the history: every call on the SAME object; after each call the model's own atom list must be what was read
+    before = [obs(a) for a in shx.atoms.all_atoms]
+    ident = [id(a) for a in shx.atoms.all_atoms]
+    res = dict(results=[], asu_changed=None)
+    for k, flag in enumerate(calls_of(case)):
+        try:
+            with contextlib.redirect_stdout(sink):
+                grown = shx.grow(with_qpeaks=True) if flag else shx.grow()
+            res['results'].append([obs(a) for a in grown])
+            if len(grown):
+                grown.pop()          # the returned list belongs to the caller: changing it must not reach the model
+        except Exception as e:
+            if k == 0:
+                return dict(raised=type(e).__name__)
+            res['results'].append(dict(raised=type(e).__name__))
+        now = shx.atoms.all_atoms
+        if res['asu_changed'] is None and ([id(a) for a in now] != ident or [obs(a) for a in now] != before):
+            res['asu_changed'] = dict(call=k, before=[a['name'] for a in before], after=[a.name for a in now])
+            break       # the object is no longer the structure that was read: later calls (and their cost) mean nothing
+    res['grown'] = res['results'][0]
+    if res['asu_changed']:
+        return res
     # inputs of the model: the implementation's own operator list, SDM items and list of needed operations
     try:
         with contextlib.redirect_stdout(sink):
             sdm = SDM(shx)
             need = sdm.calc_sdm()
-            packed = sdm.packer(sdm, need, with_qpeaks=case['with_q'])
+            packed = sdm.packer(sdm, need, with_qpeaks=calls_of(case)[-1])
         res['need'] = [[int(v) for v in bs] for bs in need]
         res['packed'] = [obs(a) for a in packed]
         from shelxfile.misc.dsrmath import Array
@@ -680,7 +717,7 @@ def model_request(case, obs):
     atoms = [dict(src=i, pos=[float(v) for v in o['pos']], sfac=o['sfac'], part=o['part'], sof=o['sof'] if not o['q'] else 11.0,
                   u=(list(o['u']) + [0.0] * 6)[:6] if not o['q'] else [0.05, o['height'], 0.0, 0.0, 0.0, 0.0], q=o['q'], mol=obs['mol'][i], an=get_atomic_number(o['el']), h=o['el'] == 'H')
              for i, o in enumerate(asu)]
-    return dict(p='C14', op='grow', kern=kern, ops=obs['ops'], atoms=atoms, need=obs['need'], sdm=obs['sdm'], with_q=case['with_q'])
+    return dict(p='C14', op='grow', kern=kern, ops=obs['ops'], atoms=atoms, need=obs['need'], sdm=obs['sdm'], with_q=calls_of(case)[-1])
 
 
 def canon(atoms):
@@ -702,7 +739,7 @@ def evaluate(ctx, cases, stream=None):
         asu = an['asu']
         nimg = len(an['images'])
         tags = [f'sg={case["sg"]}', f'profile={case.get("profile")}', f'images={min(nimg, 4)}', f'frags={min(len(an["frags"]), 7)}',
-                'qpeaks' if case['qpeaks'] else 'no-qpeaks', 'with_q' if case['with_q'] else 'without_q']
+                'qpeaks' if case['qpeaks'] else 'no-qpeaks', 'history=' + ''.join('Q' if f else 'g' for f in calls_of(case))]
         if any(a['part'] < 0 for a in case['atoms']):
             tags.append('part<0')
         if any(a['part'] > 0 for a in case['atoms']):
@@ -710,7 +747,7 @@ def evaluate(ctx, cases, stream=None):
         onsite = any(d < 1e-4 for (g, T, i, j, d) in an['con'] if i == j)
         if onsite:
             tags.append('atom-on-special-position')
-        key = [case['sg'], case['cell'], [(a['sfac'], a['xyz'], a['part']) for a in case['atoms']], case['qpeaks'], case['with_q']]
+        key = [case['sg'], case['cell'], [(a['sfac'], a['xyz'], a['part']) for a in case['atoms']], case['qpeaks'], calls_of(case)]
         ctx.count(key, nontrivial=nimg > 0 or onsite, tags=tags,
                   sample=dict(sg=case['sg'], atoms=len(case['atoms']), qpeaks=len(case['qpeaks']), bonded_images=nimg,
                               grown=len(obs.get('grown', []))) if nimg else None)
@@ -722,21 +759,49 @@ def evaluate(ctx, cases, stream=None):
             ctx.fail(f'C14|raise|{obs["raised"]}|{cls}', f'grow() raised {obs["raised"]} on a valid structure in {case["sg"]}',
                      dict(case=case, stream='grow-vs-spec', expected='a list of atoms', actual=obs['raised']))
             continue
-        for sig, what, exp, act in check_property(ctx, case, an, obs):
-            ctx.fail(sig, f'{case["sg"]}: {what}', dict(case=case, stream='grow-vs-spec', expected=exp, actual=act,
-                                                       model=obs.get('need')))
+        calls = calls_of(case)
+        # every call of the history is held against the oracle for the ORIGINAL asymmetric unit
+        for k, flag in enumerate(calls[:len(obs['results'])]):
+            resk = obs['results'][k]
+            hist = f' [call {k + 1} of {["grow(with_qpeaks=True)" if f else "grow()" for f in calls]} on one object]' if len(calls) > 1 else ''
+            if isinstance(resk, dict):
+                ctx.fail(f'C14|history|raise|{resk["raised"]}', f'{case["sg"]}: grow() raised {resk["raised"]}{hist}',
+                         dict(case=case, stream='grow-vs-spec', expected='a list of atoms', actual=resk['raised']))
+                continue
+            for sig, what, exp, act in check_property(ctx, dict(case, with_q=flag), an, dict(grown=resk)):
+                ctx.fail(sig, f'{case["sg"]}: {what}{hist}', dict(case=case, stream='grow-vs-spec', expected=exp, actual=act,
+                                                                 model=obs.get('need')))
+            if k > 0 and not isinstance(obs['results'][0], dict):
+                def atoms_only(lst):
+                    return [(tuple(round(v, 9) for v in a['xyz']), a['sfac'], a['part'], round(a['sof'], 9), tuple(round(v, 9) for v in a['u']),
+                             a['symmgen']) for a in lst if not a['q']]
+                if atoms_only(resk) != atoms_only(obs['results'][0]):
+                    ctx.fail('C14|history|result-depends-on-earlier-calls',
+                             f'{case["sg"]}: the atoms returned differ from those of the first call ({len(atoms_only(resk))} vs '
+                             f'{len(atoms_only(obs["results"][0]))}){hist}',
+                             dict(case=case, stream='grow-vs-spec', expected=len(atoms_only(obs['results'][0])), actual=len(atoms_only(resk))))
+        if obs.get('asu_changed'):
+            ch = obs['asu_changed']
+            ctx.fail('C14|history|asymmetric-unit-changed',
+                     f'{case["sg"]}: after call {ch["call"] + 1} of {calls} (and after the caller shortened the returned list) shx.atoms is no longer '
+                     f'the asymmetric unit that was read: {len(ch["before"])} -> {len(ch["after"])} atoms',
+                     dict(case=case, stream='grow-vs-spec', expected=ch['before'], actual=ch['after']))
+        if obs.get('asu_changed'):
+            continue
         if 'need' not in obs:
             ctx.fail('C14|harness|internals', f'SDM internals not reachable: {obs.get("internals")}', dict(case=case, stream='packer-model', actual=obs),
                      kind='correspondence')
             continue
         r = next(ans)
         # entry point = calc_sdm + packer
-        if canon(obs['packed']) != canon(obs['grown']) or len(obs['packed']) != len(obs['grown']):
+        last = obs['results'][-1]
+        if isinstance(last, dict) or canon(obs['packed']) != canon(last) or len(obs['packed']) != len(last):
             ctx.fail('C14|grow-is-not-calc_sdm+packer', 'Shelxfile.grow() differs from SDM.calc_sdm() + SDM.packer()',
-                     dict(case=case, stream='packer-model', expected=len(obs['packed']), actual=len(obs['grown'])), kind='correspondence')
+                     dict(case=case, stream='packer-model', expected=len(obs['packed']), actual=None if isinstance(last, dict) else len(last)),
+                     kind='correspondence')
         model = [dict(xyz=m['pos'], sfac=m['sfac'], part=m['part'], sof=m['sof'], u=m['u'], symmgen=m['symmgen'], src=m['src']) for m in r['packer']] \
             if r['packer'] is not None else None
-        nshown = len([a for a in asu if case['with_q'] or not a['q']])
+        nshown = len([a for a in asu if calls[-1] or not a['q']])
         if model is None or len(model) != len(obs['packed']) or canon(model[:nshown]) != canon(obs['packed'][:nshown]) \
                 or canon(model) != canon(obs['packed']) or \
                 sorted((m['sfac'], m['part'], round(m['sof'], 6), tuple(round(v, 6) for v in m['u']), m['symmgen']) for m in model) != \
@@ -789,23 +854,30 @@ def fixed_cases():
     # metal chain along a short axis: the bonded image is a pure lattice translation (wrap witness)
     out.append(dict(base, sg='P1', latt=-1, symm=[], cell=[2.1, 9.0, 10.0, 90.0, 90.0, 90.0], atoms=[
         dict(name='S1', sfac=5, xyz=[0.25, 0.5, 0.5], sof=11.0, u=[0.021], part=0)]))
+    # helical S chain around a 2_1 axis (P21): bonded to two different images; histories of calls on one object
+    chain = dict(base, sg='P21', latt=-1, symm=['-X, 1/2+Y, -Z'], cell=[8.0, 4.2, 9.0, 90.0, 100.0, 90.0], atoms=[
+        dict(name='S1', sfac=5, xyz=[0.06, 0.25, 0.03], sof=11.0, u=[0.021], part=0)],
+        qpeaks=[dict(xyz=[0.4, 0.6, 0.5], height=0.9), dict(xyz=[0.7, 0.1, 0.2], height=0.7)])
+    for calls in ([True, False], [True, True], [False, True, False]):
+        out.append(dict(chain, with_q=calls[0], calls=calls))
     return [c for c in out if abs(c['latt']) in LATTICE_TYPES]
 
 
 def run(ctx):
     ctx.rule = ('generated structures: 1-3 (or 7-9) fragments of 1-4 non-H atoms (+H), placed on / half a bond from / near / far from a special '
                 'position (inversion centre, 2-, 3-, 4-, 6-fold axis, mirror) of one of the tabulated settings with |LATT| in '
-                f'{list(LATTICE_TYPES)}, PART 0, 1/2 disorder, PART -1, optional Q-peaks, grow() and grow(with_qpeaks=True); distinct by '
-                '(setting, cell, atoms, Q-peaks, flag); non-trivial = at least one fragment image is bonded to the asymmetric unit '
+                f'{list(LATTICE_TYPES)}, PART 0, 1/2 disorder, PART -1, optional Q-peaks; histories of 1-3 calls grow() / grow(with_qpeaks=True) in every order on '
+                'ONE object, every result held against the oracle for the original asymmetric unit, shx.atoms compared before/after, the returned '
+                'list shortened by the caller between calls; distinct by (setting, cell, atoms, Q-peaks, history); non-trivial = at least one fragment image is bonded to the asymmetric unit '
                 '(something has to be grown) or an atom sits on a special position')
     ctx.assumptions = ['distances are taken with a float metric tensor; generated cases keep every decisive distance 0.002 A away from '
                        'the thresholds (bond limit, d_min + 0.2, 0.2 A)',
                        'bonding rule = the library\'s: d < 1.2 (r1 + r2), PARTs equal or one of them 0, never H...H; Q-peaks never bond',
                        'the SDM items and molecule numbers handed to the model are the implementation\'s own (their correctness is C13)',
-                       f'lattice types generated: {list(LATTICE_TYPES)} (centred settings are switched off until C11 is repaired)']
+                       f'lattice types generated: {list(LATTICE_TYPES)}']
     ctx.extra['lattice_types'] = list(LATTICE_TYPES)
     cases = fixed_cases()
-    n = ctx.budget(140, 1800)
+    n = ctx.budget(260, 2500)
     profiles = [None] * 8 + ['many', 'negpart', 'onsite']
     k = 0
     while len(cases) < n + 7 and k < 3 * n:
